@@ -56,6 +56,7 @@ def build(eng, tier):
     build_output_fix(eng)
     build_constant_lifting(eng)
     build_initializer_input_conversion(eng)
+    build_remove_initializers_from_inputs(eng)
 
 
 def build_identity(eng):
@@ -570,4 +571,90 @@ def build_initializer_input_conversion(eng):
                    invariant=wf + ["nonnull(graph)", "old(allocated(graph))",
                                    "forall(lambda j=int: implies(0 <= j and j < len(it), it[j]._is_initializer))"],
                    modifies=None)},
+        ensures=[], raises_default=[], modifies=None, assert_mode="raise"))
+
+
+def build_remove_initializers_from_inputs(eng):
+    """RemoveInitializersFromInputsPass.call: `the number and order of ... non-initializer inputs is preserved`.  The list handed
+    to the (cleared) inputs container is the old input list with exactly the initializers dropped, order kept - a ghost
+    precondition on extend at this site, carried through the filter loop by two ghost witnesses: g_idx (for every kept element its
+    position in the old list, strictly increasing) and g_pos (for every old position the position it went to, or -1 for a
+    dropped initializer)."""
+    from pyvc.core import Exc
+    from pyvc.types import NULL, fresh_name
+    import z3
+    CM = "onnx_ir.passes.common.constant_manipulation"
+    GCm = "onnx_ir._graph_containers"
+    schema.core_ir(eng)
+    V = TRef("Value")
+    SETV = eng.SET(V)
+    LVt = eng.LIST(V)
+    if "RemoveInitializersFromInputsPass" not in eng.classes:
+        eng.declare_class_from_source(CM, "RemoveInitializersFromInputsPass", fields={})
+    eng.spec_fn('''
+def filtered(old, new, idx, pos, inits):
+    return (len(idx) == len(new) and len(pos) == len(old) and
+            forall(lambda m=int: implies(0 <= m and m < len(new), 0 <= idx[m] and idx[m] < len(old) and new[m] is old[idx[m]] and pos[idx[m]] == m)) and
+            forall(lambda m=int, n=int: implies(0 <= m and m < n and n < len(new), idx[m] < idx[n])) and
+            forall(lambda j=int: implies(0 <= j and j < len(old) and old[j] in inits, pos[j] == -1)) and
+            forall(lambda j=int: implies(0 <= j and j < len(old) and not (old[j] in inits), 0 <= pos[j] and pos[j] < len(new) and idx[pos[j]] == j)))
+''')
+    KEEP = "unchanged('Graph._inputs', 'Graph._initializers', '_GraphIO.data')"
+    others = "forall(lambda d=GraphInputs: implies(d is not self, box(d.data) == old(box(d.data))))"
+    clear_c = FnDecl(f"{GCm}._GraphIO.clear", "contract", GCm, "_GraphIO.clear", requires=["nonnull(self.data)"],
+        # (clearing the container leaves the caller's freshly built list alone)
+        ensures=["len(box(self.data)) == 0", KEEP, others, "nonnull(caller_new_inputs) and seq_eq(box(caller_new_inputs), old(box(caller_new_inputs)))"],
+        raises={"AnyException": []}, modifies=None)
+    extend_c = FnDecl(f"{GCm}._GraphIO.extend", "contract", GCm, "_GraphIO.extend",
+        # GHOST PRECONDITION: what is put back is the old input list filtered by `not an initializer`, order kept
+        requires=["nonnull(other)", "filtered(g_it, box(other), g_idx, g_pos, g_inits)"],
+        ensures=[KEEP, others], raises={"AnyException": []}, modifies=None)
+
+    def fresh_seq(e, p, ety, name):
+        v = e.symbolic_param(p, fresh_name(name), TSeq(ety))
+        i = z3.Int(fresh_name("qi"))
+        ea = e._entry_alloc(p)
+        p.assume(v.len >= 0)
+        p.assume(z3.ForAll([i], z3.Implies(z3.And(0 <= i, i < v.len), z3.And(v.at(i).z != NULL, z3.Select(ea, v.at(i).z)))))
+        return v
+
+    def setup(e, p, env):
+        e.lenient = True
+        e.functions[f"{GCm}._GraphIO.clear"] = clear_c
+        e.functions[f"{GCm}._GraphIO.extend"] = extend_c
+        e.method_models = dict(e.method_models)
+        e.method_models[("Model", "graphs")] = FnDecl("Model.graphs", "builtin", impl=lambda e2, p2, a, k, n: [(p2, fresh_seq(e2, p2, TRef("Graph"), "graphs"))])
+        e.functions["stdlib:_collections_abc.Mapping.values"] = FnDecl("Mapping.values", "builtin",
+            impl=lambda e2, p2, a, k, n: [(p2, fresh_seq(e2, p2, V, "init_values"))])
+        orig_iter = e.iter_extra
+
+        def iter_extra(v, p2):
+            from pyvc.types import VRef
+            if isinstance(v, VRef) and v.cls in ("GraphOutputs", "GraphInputs"):
+                return e.to_seq(e.read_field(p2, v, "data"), p2)
+            return orig_iter(v, p2)
+        e.iter_extra = iter_extra
+    wf = ["forall(lambda g=Graph: implies(old(allocated(g)), nonnull(g._inputs) and nonnull(g._inputs.data) and nonnull(g._initializers)))",
+          "forall(lambda g=Graph, h=Graph: implies(old(allocated(g)) and old(allocated(h)) and g is not h, g._inputs is not h._inputs and g._inputs.data is not h._inputs.data))"]
+    pre = [w.replace("old(allocated(g)) and old(allocated(h)) and ", "").replace("implies(old(allocated(g)), ", "(") for w in wf]
+    eng.add_target(Target("RemoveInitializersFromInputsPass.call", mod=CM, qual="RemoveInitializersFromInputsPass.call",
+        self_cls="RemoveInitializersFromInputsPass", params={"model": TRef("Model")}, setup=setup, requires=["nonnull(model)"] + pre,
+        local_types={"initializers": SETV, "new_inputs": LVt},
+        ghost_init="g_idx = IntSeq()\ng_pos = IntSeq()\ng_it = EmptySeq(Value)",
+        ghost=[("store:initializers", "after", "g_inits = box(initializers)"),       # the set's VALUE (callees may not change what it was)
+               ("store:new_inputs", "after", "g_idx = IntSeq()\ng_pos = IntSeq()\ng_it = box(graph._inputs.data)"),
+               ("new_inputs.append(input_value)", "before", "g_idx = g_idx + IntSeq(g_k)\ng_pos = g_pos + IntSeq(len(box(new_inputs)))"),
+               ("count += 1", "before", "g_pos = g_pos + IntSeq(-1)")],
+        loops={"for graph in model.graphs()": LoopSpec(invariant=wf, modifies=None),
+               "for input_value in graph.inputs": LoopSpec(
+                   invariant=wf + ["nonnull(graph)", "old(allocated(graph))", "nonnull(new_inputs)", "seq_eq(g_it, it)",
+                                   "seq_eq(box(graph._inputs.data), g_it)",
+                                   "len(g_pos) == k and len(g_idx) == len(box(new_inputs))",
+                                   "forall(lambda m=int: implies(0 <= m and m < len(box(new_inputs)), 0 <= g_idx[m] and g_idx[m] < k and "
+                                   "box(new_inputs)[m] is g_it[g_idx[m]] and g_pos[g_idx[m]] == m))",
+                                   "forall(lambda m=int, n=int: implies(0 <= m and m < n and n < len(box(new_inputs)), g_idx[m] < g_idx[n]))",
+                                   "forall(lambda j=int: implies(0 <= j and j < k and g_it[j] in g_inits, g_pos[j] == -1))",
+                                   "forall(lambda j=int: implies(0 <= j and j < k and not (g_it[j] in g_inits), "
+                                   "0 <= g_pos[j] and g_pos[j] < len(box(new_inputs)) and g_idx[g_pos[j]] == j))"],
+                   modifies=[LVt.cls + ".$v"])},
         ensures=[], raises_default=[], modifies=None, assert_mode="raise"))
